@@ -678,4 +678,25 @@ theorem three_point_one_sided_stored (f : List ℝ → ℝ) (w : W ℝ) (params 
       (by intro e; apply hH; linarith)
     rw [this]
 
+
+/-! ## Non-vacuity of the hypotheses -/
+
+/-- the one-sided situation of `three_point_one_sided_stored` exists: a parameter at 0 passed with
+the constraint `[0, +∞[`, step 1/16 -/
+example : ∃ (qv : Param ℝ) (x h : ℝ), 0 < h ∧ qv.prec = 0 ∧
+    qv.violates (x - (1 + |x|) * h) = true ∧ qv.violates (x + (1 + |x|) * h) = false ∧
+    qv.violates (x + (1 + |x|) * h / 2) = false := by
+  refine ⟨⟨0, 0, 0, some ⟨some 0, none, true, true⟩⟩, 0, 1 / 16, by norm_num, rfl, ?_, ?_, ?_⟩ <;>
+    simp [Param.violates, Interval.isCorrect, Scalar.geb, Scalar.leb] <;> norm_num
+
+/-- the nominal situation `Free` exists (one unconstrained parameter, `f` bounded) -/
+example : ∃ (f : List ℝ → ℝ) (params B : PList ℝ), Free f params B ∧ B ≠ [] ∧ params ≠ [] := by
+  refine ⟨fun _ => 0, [⟨0, 1, 0, none⟩], [⟨0, 1, 0, none⟩], ⟨⟨by simp [names], ?_, ?_⟩, ?_, ?_, ?_⟩, by simp, by simp⟩
+  · intro p hp; simp at hp; subst hp; rfl
+  · intro q hq b hb _; simp at hq hb; subst hq; subst hb; rfl
+  · intro b hb; simp at hb; subst hb; rfl
+  · intro q hq; simp at hq; subst hq; exact ⟨rfl, rfl⟩
+  · intro pt
+    simp [tooBig, veryBig, neb, Scalar.geb, Scalar.leb, Scalar.eqb]
+
 end Bpp.C12
